@@ -9,7 +9,7 @@ from . import C02_lib as L
 
 SUPPORT = ["Json/Chars.v", "Json/StrScan.v", "Json/NumScan.v", "Json/Fsm.v", "Json/Grammar.v", "Json/Lang.v",
            "Json/StrScanProofs.v", "Json/NumScanProofs.v", "Json/FsmProofs.v", "Json/FsmSound.v",
-           "Json/FsmComplete.v", "Json/Wrappers.v", "Json/Fast.v", "Json/FastProofs.v", "Json/VsProofs.v", "Json/BitTrick.v"]
+           "Json/FsmComplete.v", "Json/Wrappers.v", "Json/Fast.v", "Json/FastProofs.v", "Json/VsProofs.v", "Json/GenComplete.v", "Json/BitTrick.v"]
 
 CLAIM = {
     "gens": [],
@@ -24,7 +24,7 @@ CLAIM = {
              "(uninitialised `ch`), for which a refutation witness is proved. The non-validating skippers (skip_one_fast family) are "
              "proved to stop at the end of every structurally valid value (after a number: inside the blanks that follow it). The "
              "string-validating variant (MASK_VALIDATE_STRING, ConfigStd) is modelled (advance_string_validate) and proved to accept a subset "
-             "of the default variant with the same spans, hence sound without exception. The model is tied to the shipped code (both SIMD blobs "
+             "of the default variant with the same spans, hence sound without exception, and complete for strict RFC 8259 documents of depth < MAX_RECURSE. The model is tied to the shipped code (both SIMD blobs "
              "and every consuming Go API) by a correspondence run on generated documents; every API is also compared with the "
              "two-sided oracle of the property (relaxed structural reference validator / encoding/json.Valid)."),
     "note": ("Trusted: Coq kernel, extraction + OCaml driver, the Go harness incl. its relaxed reference validator, encoding/json.Valid. "
@@ -54,7 +54,7 @@ def run(ctx):
     ctx.assumptions = [
         "advance_ns/lspace_1, the per-block step of advance_string_default (movemask + m0_mask) and the vector rounds of do_skip_number are modelled by their scalar specification; their agreement with the shipped vector code is tested (length sweeps around 16/32/64-byte multiples), not proved",
         "error positions (*p on failure) are not modelled; only accept/reject, the error code and the accepted span are compared",
-        "string contents (escapes, control characters, UTF-8) are outside the accept-set theorems, as the property allows; completeness of the string-validating variant (every strict RFC 8259 document is accepted under MASK_VALIDATE_STRING) is only checked by the oracle run, not proved",
+        "string contents (escapes, control characters, UTF-8) are outside the accept-set theorems, as the property allows",
         "the backslash-run bit trick (m0_mask) is proved equal to the sequential definition only for a 14-bit transcription (complete sweep); at the shipped widths 32/64 it is tied by the correspondence run",
         "Unmarshal into Go types, ast.Loads and the stream of jitdec value parsers are compared with the two-sided oracle only (no model)",
     ]
